@@ -191,7 +191,7 @@ def r3_single_resolution_rule(ctx):
     body = sp[0].targets[0].elts[0].value.id if ok else None
     ctx.check(ok, GOA + "#split", "*body, tail = key.split('.')" if ok else "key is not split into path and last component", where=g, node=sp[0] if sp else g.node)
     rets = [r for r in returns_of(g) if r.value is not None]
-    ok = bool(rets) and all(isinstance(r.value, ast.Tuple) and len(r.value.elts) == 2 and dotted(r.value.elts[0]) == "obj" and dotted(r.value.elts[1]) == tail for r in rets)
+    ok = bool(rets) and all(isinstance(r.value, ast.Tuple) and len(r.value.elts) == 2 and (dotted(r.value.elts[0]) == "obj" or (isinstance(r.value.elts[0], ast.Constant) and r.value.elts[0].value is None)) and dotted(r.value.elts[1]) == tail for r in rets) and any(dotted(r.value.elts[0]) == "obj" for r in rets)
     ctx.check(ok, GOA + "#return", "returns (object, last component)" if ok else "resolver returns something else than (object, last component)", where=g, node=rets[0] if rets else g.node)
     lp = [l for l in loops_in(g.node) if isinstance(l, ast.For) and enclosing_loop(l) is None]
     ok = len(lp) == 1 and dotted(lp[0].iter) == body
